@@ -15,7 +15,31 @@ from .path import Unsupported
 from .values import SInt, SBool, SStr, SOpt, SChoice, SList, Sym, to_z3, wrap
 from . import models
 
-_SORT = {'int': lambda: z3.IntSort(), 'bool': lambda: z3.BoolSort(), 'str': lambda: z3.StringSort()}
+_SORT = {'int': lambda: z3.IntSort(), 'bool': lambda: z3.BoolSort(), 'str': lambda: z3.StringSort(),
+         'obj': lambda: z3.IntSort()}      # 'obj': arbitrary Python objects, represented by integer handles
+
+
+def handle_of(interp, obj):
+    """The handle (integer term) that stands for a Python object inside symbolic lists of objects.  Distinct
+    objects have distinct handles; the same object always the same one."""
+    st = interp.st
+    tab = st.ghost.setdefault('__handles__', {})
+    ent = tab.get(id(obj))
+    if ent is None:
+        h = st.fresh_int('handle')
+        for (_o, other) in tab.values():
+            st.axiom(h != other)
+        ent = (obj, h)
+        tab[id(obj)] = ent
+    return ent[1]
+
+
+def _term(interp, v, kind):
+    if kind == 'obj':
+        if isinstance(v, SInt):       # already a handle (an element read from another list of objects)
+            return v.t
+        return handle_of(interp, v)
+    return to_z3(v)
 
 
 def _kind(v):
@@ -33,7 +57,10 @@ def shape_of_value(v):
         return ('tuple', tuple(shape_of_value(x) for x in v))
     k = _kind(v)
     if k is None:
-        raise Unsupported('element of a symbolic mutable list must be int/bool/str or a tuple of these: %r' % (v,))
+        if isinstance(v, (Sym, list, dict, set)):
+            raise Unsupported('element of a symbolic mutable list must be int/bool/str, a tuple of these, or an '
+                              'object: %r' % (v,))
+        return ('obj',)
     return (k,)
 
 
@@ -83,6 +110,8 @@ class MList(SList):
 
     def _ensure_shape(self, interp, v):
         sh = shape_of_value(v)
+        if self.shape == ('obj',) and sh == ('int',) and isinstance(v, SInt):
+            return      # a handle
         if self.shape is None:
             self.shape = sh
             self._fresh_arrays(interp, self.uid)
@@ -108,7 +137,7 @@ class MList(SList):
         if self.shape == ('str',):
             self.hist = ('append', self.arrs[()], self.length, v, self.hist)
         for path, kind in _paths(self.shape):
-            self.arrs[path] = z3.Store(self.arrs[path], self.length, to_z3(_leaf(v, path)))
+            self.arrs[path] = z3.Store(self.arrs[path], self.length, _term(interp, _leaf(v, path), kind))
         self.length = z3.simplify(self.length + 1)
 
     def insert(self, interp, pos, v):
@@ -120,7 +149,7 @@ class MList(SList):
         k = z3.Int('k!shift')
         for path, kind in _paths(self.shape):
             a = self.arrs[path]
-            self.arrs[path] = z3.Lambda([k], z3.If(k == 0, to_z3(_leaf(v, path)), z3.Select(a, k - 1)))
+            self.arrs[path] = z3.Lambda([k], z3.If(k == 0, _term(interp, _leaf(v, path), kind), z3.Select(a, k - 1)))
         self.length = z3.simplify(self.length + 1)
 
     def pop(self, interp, pos=-1):
@@ -170,7 +199,7 @@ class MList(SList):
             sample = models.slist_elem(interp, other, k - n)
             for path, kind in _paths(self.shape):
                 a = self.arrs[path]
-                self.arrs[path] = z3.Lambda([k], z3.If(k < n, z3.Select(a, k), to_z3(_leaf(sample, path))))
+                self.arrs[path] = z3.Lambda([k], z3.If(k < n, z3.Select(a, k), _term(interp, _leaf(sample, path), kind)))
             self.length = z3.simplify(n + other.length)
             self.cache = {}
             return
@@ -190,7 +219,7 @@ class MList(SList):
         self.cache = {}
         self.hist = None
         for path, kind in _paths(self.shape):
-            self.arrs[path] = z3.Store(self.arrs[path], t, to_z3(_leaf(v, path)))
+            self.arrs[path] = z3.Store(self.arrs[path], t, _term(interp, _leaf(v, path), kind))
 
     def copy(self, interp):
         c = MList(interp, interp.st.fresh_name(self.uid + '.copy'), None, self.length)
